@@ -253,6 +253,28 @@ type handlerConnCloser interface {
 // envelopes the message and attaches headers and trailers. It attempts to
 // consume the response stream and isn't appropriate when receiving multiple
 // messages.
+// receiveUnaryRequest reads the single message of a unary or server streaming
+// request. It then reads the request side to its end: a well-formed request
+// holds nothing else, and net/http only watches an HTTP/1.1 connection for the
+// client going away (and cancels the handler's context) once the request body
+// has been consumed.
+func receiveUnaryRequest[T any](conn StreamingHandlerConn) (*Request[T], error) {
+	var msg T
+	if err := conn.Receive(&msg); err != nil {
+		return nil, err
+	}
+	if err := conn.Receive(new(T)); err == nil {
+		return nil, NewError(CodeUnimplemented, errors.New("unary request has multiple messages"))
+	} else if !errors.Is(err, io.EOF) {
+		return nil, err
+	}
+	return &Request[T]{
+		Msg:    &msg,
+		spec:   conn.Spec(),
+		header: conn.RequestHeader(),
+	}, nil
+}
+
 func receiveUnaryResponse[T any](conn StreamingClientConn) (*Response[T], error) {
 	var msg T
 	if err := conn.Receive(&msg); err != nil {
